@@ -212,7 +212,14 @@ class Server:
         self.worker_class = worker_class
         self.settings = dict(settings or {})
         self.bind_kind = bind
-        if bind == "tcp":
+        if bind == "both":
+            # two listeners: a TCP port and a unix socket (self.addr is the TCP one, self.addr2 the unix one)
+            self.port = free_port()
+            self.addr = ("127.0.0.1", self.port)
+            self.sockpath = os.path.join(self.dir, "g.sock")
+            self.addr2 = self.sockpath
+            self.bind = ["127.0.0.1:%d" % self.port, "unix:" + self.sockpath]
+        elif bind == "tcp":
             self.port = free_port()
             self.addr = ("127.0.0.1", self.port)
             self.bind = "127.0.0.1:%d" % self.port
